@@ -91,7 +91,7 @@ def r3_equality(ctx):
     b = ctx.body(AP + "check_tx_coins_balanced", r)
     CUR = "elem(HashMap::iter($3)).0"
     OUTV = "elem(HashMap::iter($3)).1"
-    INV = "(HashMap::get($2, %s) as Some).0" % CUR
+    INV = "try(HashMap::get($2, %s))" % CUR
     oks = [bb for bb, e in q.result_blocks(b)["Ok"]]
     loops = [l for l in q.loop_with_source(b, lambda s: True) if sig(l[3]) == "HashMap::iter($3)"]
     r.anchor(loops, "loop over output denominations")
@@ -100,7 +100,7 @@ def r3_equality(ctx):
     for e, c, bi in q.cmp_atoms(b):
         op, L, R = q.as_cmp(e)
         sides = {sig(q.unwrap0(L)), sig(q.unwrap0(R))}
-        if sides == {OUTV, INV}:
+        if sides == {OUTV, INV} or sides == {OUTV, "HashMap::get($2, %s)" % CUR}:
             deciding.append((e, op, bi))
     r.check(len(deciding) == 1, "atom", "one comparison between the output total and the input total of the same denomination", "comparisons out-vs-in: %d" % len(deciding))
     for e, op, bi in deciding:
@@ -124,7 +124,7 @@ def r3_equality(ctx):
 def r4_input_sums(ctx):
     r = ctx.rule("R4", "check_tx_validity: in_coins[coin.denom] := in_coins.get(coin.denom).unwrap_or(0) + coin.value for the coin resolved for this input; in_coins starts empty")
     b = ctx.body(AP + "check_tx_validity", r)
-    COIN = "(HashMap::get($3, elem(Iterator::enumerate($2.inputs)).1) as Some).0"
+    COIN = "try(HashMap::get($3, elem(Iterator::enumerate($2.inputs)).1))"
     ins = [(bi, e) for bi, e in q.call_exprs(b, "HashMap::insert") if sig(q.novers(e[2][0])) == "in_coins"]
     r.check(len(ins) == 1, "update", "one update of in_coins per input", "%d updates of in_coins" % len(ins))
     for bi, e in ins:
@@ -288,7 +288,7 @@ def r8_subsidy_peg(ctx):
     # schedule: reward = (1<<20) >> ((height − TIP909)/1e6); fee + erg = reward under both TIP-909a settings
     rw = q.var_def_exprs(t, "reward")
     s = sig(rw[0][1]) if len(rw) == 1 else "?"
-    r.check(s == "Shr(Shl(1, 20), Div(core::num::<impl u64>::saturating_sub($1.height.0, TIP_909_HEIGHT.0), 1000000))", "subsidy/schedule", "reward = 2^20 >> ((height − TIP-909)/10^6)", "reward = %s" % s)
+    r.check(s == "Shr(1048576, Div(core::num::<impl u64>::saturating_sub($1.height.0, TIP_909_HEIGHT.0), 1000000))", "subsidy/schedule", "reward = 2^20 >> ((height − TIP-909)/10^6)", "reward = %s" % s)
     flag = [e for bi, e in q.call_exprs(t, "UnsealedState::tip_909a")]
     sm = q.call_exprs(t, "PoolState::swap_many")
     r.check(len(sm) == 2, "subsidy/two-injections", "two injections (fee, ERG)", "%d injections" % len(sm))
